@@ -79,6 +79,15 @@ func Lookalikes(level int) []*tv.Package {
 	add("log/last-statement", "func FN(p *Pt) {\n\tp.X = 1\n\tlog.Println(\"done\")\n}")
 	add("log/before-return-in-then", "func FN(x uint64) uint64 {\n\tif x > 1 {\n\t\tlog.Println(\"big\")\n\t\treturn 1\n\t}\n\treturn 2\n}")
 	add("log/two-in-a-row", "func FN(x uint64) uint64 {\n\tlog.Println(\"a\")\n\tlog.Println(\"b\")\n\treturn x\n}")
+	// shapes on which goose used to end with a Go panic instead of a located error
+	add("crash/five-results-define", "func FNfive() (uint64, uint64, uint64, uint64, uint64) {\n\treturn 1, 2, 3, 4, 5\n}\n\nfunc FN() uint64 {\n\ta, b, c, d, e := FNfive()\n\treturn a + b + c + d + e\n}")
+	add("crash/five-results-assign", "func FNfive() (uint64, uint64, uint64, uint64, uint64) {\n\treturn 1, 2, 3, 4, 5\n}\n\nfunc FN() uint64 {\n\tvar a uint64\n\tvar b uint64\n\tvar c uint64\n\tvar d uint64\n\tvar e uint64\n\ta, b, c, d, e = FNfive()\n\treturn a + b + c + d + e\n}")
+	add("crash/copy-into-named-slice", "type FNbuf []byte\n\nfunc FN(b FNbuf, src []byte) uint64 {\n\tn := copy(b, src)\n\treturn uint64(n)\n}")
+	add("crash/error-method", "func FNfail() error {\n\treturn nil\n}\n\nfunc FN() string {\n\terr := FNfail()\n\treturn err.Error()\n}")
+	add("crash/named-pointer-deref", "type FNp *uint64\n\nfunc FN(p FNp) uint64 {\n\treturn *p\n}")
+	add("crash/method-on-type-param", "type FNstringer interface {\n\tString() string\n}\n\nfunc FN[T FNstringer](x T) string {\n\treturn x.String()\n}")
+	add("crash/pointer-to-error", "func FN() bool {\n\tvar e *error\n\treturn e == nil\n}")
+	add("crash/append-constraint-slice", "func FN[S ~[]uint64](s S) S {\n\treturn append(s, 1)\n}")
 	add("generic/two-param-struct-method", "type FNpair[K any, V any] struct {\n\tk K\n\tv V\n}\n\nfunc (p *FNpair[K, V]) FNkey() K {\n\treturn p.k\n}\n\nfunc FN(x uint64) uint64 {\n\tp := &FNpair[uint64, bool]{k: x, v: true}\n\treturn p.FNkey()\n}")
 	add("generic/two-param-func", "func FNsnd[A any, B any](a A, b B) B {\n\treturn b\n}\n\nfunc FN(x uint64) uint64 {\n\treturn FNsnd[bool, uint64](true, x)\n}")
 	add("ctl/else-if-chain-of-returns-no-final-else", "func FN(on bool, a uint64, b uint64) uint64 {\n\tif on {\n\t\tif a > 10 {\n\t\t\treturn 1\n\t\t} else if b > 10 {\n\t\t\treturn 2\n\t\t}\n\t}\n\treturn a + b\n}")
